@@ -7,7 +7,7 @@ import sys
 import time
 
 from ..core import lean
-from ..core.common import Outcome, fingerprint, REPO
+from ..core.common import Outcome, fingerprint, REPO, VERIF
 from ..core.par import run_chunks, mark
 from ..comp import filelock as F
 from . import c02
@@ -79,7 +79,10 @@ class MP(types.ModuleType):
     @staticmethod
     def sleep(d):
         emit('rt:0'); _tm.sleep(d)
-FL.threading = TP('threading'); FL.os = OP('os'); FL.fcntl = FP('fcntl'); FL.time = MP('time')
+sys.path.insert(0, sys.argv[6])
+from harness.core import attach
+attach.substitute(FL, [(_th.Lock, TP.Lock), (_th.RLock, TP.RLock), (_os.open, OP.open), (_os.close, OP.close),
+                       (_fc.flock, FP.flock), (_tm.sleep, MP.sleep)], (_th, _os, _fc, _tm))
 n = [0]
 target = FL.__file__
 def tr(frame, event, arg):
@@ -113,7 +116,7 @@ SCRIPTS = ['plain', 'timed', 'nested']
 
 def child(work, path, kill_at, script, tag):
     logp = os.path.join(work, f'labels-{tag}.txt')
-    p = subprocess.run([sys.executable, '-c', CHILD, REPO, path, str(kill_at), script, logp],
+    p = subprocess.run([sys.executable, '-c', CHILD, REPO, path, str(kill_at), script, logp, VERIF],
                        stdout=subprocess.PIPE, stderr=subprocess.PIPE, text=True, timeout=120)
     labels = []
     try:
